@@ -251,7 +251,7 @@ def main(argv=None):
     head, dirty = repo_state()
     cov = {
         "evaluations": int(m["counters"].get("evaluations", m["counters"].get("cases_seen", 0))),
-        "distinct_nontrivial": len(m["distinct"]),
+        "distinct_nontrivial": len(m["distinct"]) + int(m["counters"].get("distinct_by_construction", 0)),
         "rule": module.RULE,
         "samples": m["samples"][:6] or ["<none>"],
         "oracle_evaluations": {k: v for k, v in sorted(m["counters"].items())},
@@ -271,8 +271,12 @@ def main(argv=None):
         cov["exhaustive"] = True
     if hasattr(module, "coverage_extra"):
         cov.update(module.coverage_extra(m, a.tier) or {})
+    if getattr(module, "REACH_FILES", None) and "reach" not in cov:
+        from . import probes
+        cov["reach"] = probes.reach_summary(m["extra"].get("reach", {}), module.REACH_FILES)
     for k, v in m["extra"].items():
-        cov.setdefault(k, v)
+        if k != "reach":
+            cov.setdefault(k, v)
     ev = {
         "property_id": prop, "tier": a.tier, "seed": seed, "level": getattr(module, "LEVEL", "exploration"),
         "coverage": cov, "assumptions": getattr(module, "ASSUMPTIONS", []), "wall_s": round(wall, 2),
